@@ -613,18 +613,39 @@ def run_case(case, ctx):
     return _run_ops(case, ctx, buf, kind, cls, ops)
 
 
+class _Refused(Exception):
+    pass
+
+
+def _make(ctx, im, cls):
+    """Open the (well-formed) image of a class.  A tree that refuses it has a problem that belongs to the format's own read
+    property, not to this one: the case is skipped and counted (the vacuity guard of the engine notices when nothing is left)."""
+    try:
+        return im["make"]()
+    except Exception as e:
+        ctx.extra[f"well-formed-image-refused:{cls}:{type(e).__name__}"] += 1
+        raise _Refused() from e
+
+
 def _run_ops(case, ctx, buf, kind, cls, ops):
+    try:
+        return _run_ops2(case, ctx, buf, kind, cls, ops)
+    except _Refused:
+        return None
+
+
+def _run_ops2(case, ctx, buf, kind, cls, ops):
     with ctx.watch(case):
         if kind == "single":
             im = _image(cls, 0, buf)
-            s, r, closer = im["make"]()
+            s, r, closer = _make(ctx, im, cls)
             streams, readers, models = [s], [r], [StreamModel(im["disk"])]
             closers = [closer]
             if not im.get("big"):
                 im["disk"].materialize()
         else:
             ims = [_image(cls, 0, buf), _image(case.get("cls2", cls), 1, buf)]
-            made = [im["make"]() for im in ims]
+            made = [_make(ctx, im, cls) for im in ims]
             streams = [m[0] for m in made]
             readers = [m[1] for m in made]
             closers = [m[2] for m in made]
